@@ -83,8 +83,11 @@ def started_flag(prog: Program) -> str:
         g = prog.pick(cls.methods.get("running", []), "getter")
         if g is not None:
             for n in ast.walk(g.node):
-                if isinstance(n, ast.Return) and _self_attr(n.value):
-                    return _self_attr(n.value)
+                v = n.value if isinstance(n, ast.Return) else None
+                if isinstance(v, ast.Call) and getattr(v.func, "id", None) == "bool" and len(v.args) == 1:
+                    v = v.args[0]  # bool(self._started)
+                if v is not None and _self_attr(v):
+                    return _self_attr(v)
         raise Undecided("ServiceUnit.running does not return an attribute", cls.node)
 
     return _memo(prog, "started_flag", find)
